@@ -11,9 +11,10 @@ NumValLit,NumValPrint}.lean.  All statements quantify over ALL operands / spelli
 False on model and implementation alike (kept as `…_stmt`, negation proved on a witness that the
 harness replays on the real code, recorded in known-findings.d/C06.txt):
 * `+ - *` beyond 34 significant digits are rounded silently (ints included);
-* an SI literal whose product is not an integer is rejected (the spec truncates), one whose
-  product needs more than 34 digits is rounded (the silent loss of exponents outside ±100000 was
-  repaired by /repo 1674508 and is now a proved error);
+* an SI literal whose product is not an integer is rejected (the spec truncates) — the only
+  literal deviation left: an ACCEPTED grammar spelling always has the spec's value
+  (`C06_literal_sound`; /repo 1674508 made exponents outside ±100000 an error, 06ced89 made the
+  multiplier product exact);
 * an int whose decimal exponent is positive prints in exponent notation and reads back as a float.
 -/
 import CueVerif.Proofs.ArithExact
@@ -161,18 +162,18 @@ theorem C06_bytes_order (a b c : List Nat) :
 /-- Every spelling of the grammar — every base, separator position, fraction, exponent and
 multiplier — is accepted by `compiler.parse` (gate `ParseNum` + `NumInfo.decimal`) with the
 grammar's kind and denotes exactly the spec's value, inside the region where the implementation
-is right (no superfluous leading zero before a multiplier; exponent window; multiplied mantissa an integer of at most 34 digits). -/
+accepts it (no superfluous leading zero before a multiplier; exponent window; the multiplied
+mantissa an integer — of any number of digits). -/
 theorem C06_literal_partial (l : Lit) (hwf : l.wf = true) (hz : l.siLeadingZero = false)
-    (hw : l.inWindow) (hi : l.siIntegral) (hf : l.siFits prec) :
+    (hw : l.inWindow) (hi : l.siIntegral) :
     ∃ n, litValue l.spell = .ok n ∧ n.k = l.kind ∧ toRat n.d = l.denote :=
-  NumValLit.literal_litValue l hwf hz hw hi hf
+  NumValLit.literal_litValue l hwf hz hw hi
 
-/-- Soundness without the side conditions: whenever a grammar spelling is ACCEPTED its kind and
-value are the spec's — the only region of silently wrong values is a multiplied mantissa of more
-than 34 digits.  (Everything else the implementation gets wrong is a rejection.) -/
-theorem C06_literal_sound (l : Lit) (hwf : l.wf = true) (hf : l.siFits prec) (n : Num)
+/-- Soundness, unconditionally: whenever a grammar spelling is ACCEPTED its kind and value are the
+spec's.  Everything the implementation still gets wrong about literals is a rejection. -/
+theorem C06_literal_sound (l : Lit) (hwf : l.wf = true) (n : Num)
     (h : litValue l.spell = .ok n) : n.k = l.kind ∧ toRat n.d = l.denote :=
-  NumValLit.literal_sound l hwf hf n h
+  NumValLit.literal_sound l hwf n h
 
 /-- Outside the exponent window (written exponent, fraction length or adjusted exponent beyond
 ±100000; a `decimal_lit` of more than 100001 digits) a literal is an ERROR, never another value
@@ -188,9 +189,9 @@ theorem C06_literal_exponent_rejected :
 
 /-- the value reader alone (no gate, leading zeros allowed) -/
 theorem C06_literal_value (l : Lit) (hwf : l.wf = true) (hw : l.inWindow)
-    (hi : l.siIntegral) (hf : l.siFits prec) :
+    (hi : l.siIntegral) :
     ∃ n, readValue l.kind l.spell = .ok n ∧ n.k = l.kind ∧ toRat n.d = l.denote :=
-  NumValLit.literal_value l hwf hw hi hf
+  NumValLit.literal_value l hwf hw hi
 
 /-- C09's automaton `ParseNum` accepts every grammar spelling with the grammar's kind, except
 `si_lit`s with a superfluous leading zero. -/
@@ -204,18 +205,17 @@ example : (Lit.si [49] (some [53]) ⟨.K, true⟩).wf = true ∧
 /-- The full statement: every grammar spelling is accepted and denotes the spec's value. -/
 def C06_literal_stmt : Prop := NumValLit.literal_stmt
 
-/-- FALSE: `1.3Ki` (spec: 1331) is rejected; `12345678901234567890123456789012345678K` is
-rounded. -/
+/-- FALSE: `1.3Ki` (spec: 1331) is rejected. -/
 theorem C06_literal_false : ¬ C06_literal_stmt := NumValLit.literal_false
 theorem C06_literal_false_trunc :
     litValue (Lit.si [49] (some [51]) ⟨.K, true⟩).spell = .err ∧
     (Lit.si [49] (some [51]) ⟨.K, true⟩).denote = 1331 := NumValLit.literal_false_trunc
-/-- FALSE also for: `12345678901234567890123456789012345678K` (rounded to 34 digits). -/
-theorem C06_literal_false_round :
+/-- `12345678901234567890123456789012345678K` is exact (it used to be rounded to 34 digits;
+/repo 06ced89). -/
+theorem C06_literal_big_mantissa :
     litValue (Lit.si [49,50,51,52,53,54,55,56,57,48,49,50,51,52,53,54,55,56,57,48,49,50,51,52,53,54,55,56,57,48,49,50,51,52,53,54,55,56] none ⟨.K, false⟩).spell
-      = .ok ⟨.int, ⟨12345678901234567890123456789012350000000, 0⟩⟩ ∧
-    (Lit.si [49,50,51,52,53,54,55,56,57,48,49,50,51,52,53,54,55,56,57,48,49,50,51,52,53,54,55,56,57,48,49,50,51,52,53,54,55,56] none ⟨.K, false⟩).denote
-      = 12345678901234567890123456789012345678000 := NumValLit.literal_false_round
+      = .ok ⟨.int, ⟨12345678901234567890123456789012345678000, 0⟩⟩ := NumValLit.literal_big_mantissa_ok
+
 /-- `0K` denotes 0 (kept working by /repo 726bce5). -/
 theorem C06_literal_bare_zero :
     litValue (Lit.si [48] none ⟨.K, false⟩).spell = .ok ⟨.int, ⟨0, 0⟩⟩ := NumValLit.literal_bare_zero_ok
